@@ -98,3 +98,11 @@ package maypanic
 //@   ensures all_recovering: has(allFunctions, rf) && called(doesRecover, rf) && retof(doesRecover, rf) ==> has(result, rf)
 //@   loop f invariant frame: preserved(all)
 //@   loop f invariant inv: isfresh(result) && (has(result, rf) ==> visited(f, rf) && called(doesRecover, rf) && retof(doesRecover, rf)) && (visited(f, rf) && retof(doesRecover, rf) ==> has(result, rf))
+
+// C07: the package of a goroutine entry (nil for bound-method wrappers and generic
+// instances) is only looked at after a nil check.
+//@ func MayPanicAnalyzer
+//@   property C07
+//@   option havoc:*
+//@   requires program != nil
+//@   nilsafe ssa.Function.Pkg
